@@ -80,7 +80,7 @@ func C13(c *core.Ctx) {
 		}
 		// stream path: one reader, successive DecodeMsg calls
 		br := bytes.NewReader(cat)
-		rd := msgp.NewReader(br)
+		rd := msgp.NewReader(onlyReader{br})
 		for j, m := range msgs {
 			recv := newReceiver(m.Mode)
 			var err error
